@@ -83,6 +83,7 @@ type Task struct {
 	Name  string
 
 	wake  chan wakeMsg
+	done  chan struct{} // closed when the goroutine has finished (teardown waits for it)
 	pend  gate
 	state taskState
 	goid  uint64
@@ -276,7 +277,7 @@ func goid() uint64 {
 }
 
 func (s *Sim) newTask(site int32, class string, name string, f func()) *Task {
-	t := &Task{ID: len(s.Tasks), Class: class, Site: site, Name: name, wake: make(chan wakeMsg, 1), sim: s}
+	t := &Task{ID: len(s.Tasks), Class: class, Site: site, Name: name, wake: make(chan wakeMsg, 1), done: make(chan struct{}), sim: s}
 	t.pend = gate{kind: gStart, site: site}
 	t.state = tsParked
 	if s.cfg.HB {
@@ -307,6 +308,7 @@ func (s *Sim) newTask(site int32, class string, name string, f func()) *Task {
 func (t *Task) main(f func()) {
 	s := t.sim
 	defer s.wg.Done()
+	defer close(t.done)
 	t.goid = goid()
 	m := <-t.wake
 	if m.poison {
@@ -879,9 +881,19 @@ func (s *Sim) release(t *Task, arm int) int {
 
 func (s *Sim) teardown() {
 	s.tearing = true
+	// One task at a time: a poisoned task runs its deferred functions (unlocks, closes, sends)
+	// while it ends; doing that for all tasks in parallel lets those deferred functions race with
+	// each other in ways the code under test never allows.
 	for _, t := range s.Tasks {
-		if t.state != tsExited {
-			t.wake <- wakeMsg{poison: true}
+		if t.state == tsExited {
+			continue
+		}
+		t.wake <- wakeMsg{poison: true}
+		select {
+		case <-t.done:
+		case <-time.After(20 * time.Second):
+			fmt.Fprintf(os.Stderr, "simrt: teardown timed out waiting for task %d (%s)\n", t.ID, t.Class)
+			dumpAndExit()
 		}
 	}
 	done := make(chan struct{})
@@ -1005,7 +1017,9 @@ func LC[C any](site int32, ch C) C {
 // CL records that ch is being closed and returns it.
 func CL[C any](site int32, ch C) C {
 	s := cur
-	if s == nil {
+	if s == nil || s.tearing {
+		// (during teardown the poisoned tasks run their deferred functions in parallel: no
+		// simulator state may be touched any more)
 		return ch
 	}
 	v := reflect.ValueOf(ch)
@@ -1045,7 +1059,7 @@ func Select(site int32, hasDefault bool, cases ...Case) int {
 
 // NoteClosed lets a harness declare a channel closed by uninstrumented code.
 func NoteClosed(ch any) {
-	if s := cur; s != nil {
+	if s := cur; s != nil && !s.tearing {
 		v := reflect.ValueOf(ch)
 		if v.IsValid() && !v.IsNil() {
 			s.closed[v.Pointer()] = true
